@@ -953,6 +953,45 @@ def main(chk):
     chk.count('duplicate-name cases', len(dcases))
     chk.count('duplicate-name cases diagnosed and judged', n_dup_diag)
 
+    # ---------------- (h) long identifiers: the quoted identifier is the one in the input, whatever its length (fixed buffers
+    # in the lexer / message formatting must not cut it), and long names that share a long prefix stay distinct
+    def lname(n, tail='q'):
+        return ('n' + 'abcdefghij' * (n // 10 + 1))[:n - 1] + tail
+    lcases = []
+    for n in (64, 255, 256, 257, 300, 1000, 4000):
+        nm = lname(n)
+        lcases.append(('undefined type', n, 'SCHEMA s;\nENTITY e;\n  a : %s;\nEND_ENTITY;\nEND_SCHEMA;\n' % nm, nm, 3))
+        lcases.append(('undefined supertype', n, 'SCHEMA s;\nENTITY e\n  SUBTYPE OF (%s);\n  a : INTEGER;\nEND_ENTITY;\nEND_SCHEMA;\n' % nm, nm, 3))
+        lcases.append(('entity declared twice', n, 'SCHEMA s;\nENTITY %s;\n  a : INTEGER;\nEND_ENTITY;\nENTITY %s;\n  b : INTEGER;\nEND_ENTITY;\nEND_SCHEMA;\n' % (nm, nm), nm, 5))
+        a, b = lname(n, 'x'), lname(n, 'y')      # equal up to the last character
+        lcases.append(('valid: two names equal up to the last character', n,
+                       'SCHEMA s;\nENTITY %s;\n  a : INTEGER;\nEND_ENTITY;\nENTITY %s;\n  b : %s;\nEND_ENTITY;\nEND_SCHEMA;\n' % (a, b, a), None, None))
+
+    def hwork(c):
+        return c, R.run_tool(TOOL, c[2], how='abs')
+    for (what, n, text, nm, line), tr in run.pmap(hwork, lcases):
+        chk.ev()
+        chk.seen('long identifier', what, n)
+        lab = 'identifier of %s characters' % ('up to 255' if n <= 255 else '256 or more')
+        if tr.r.crashed() or tr.r.timed_out:
+            chk.violation('long identifier: %s, %s x %s|%s' % (what, lab, TOOL, tr.r.symptom()), 'n=%d' % n, {'input.exp': text}, dict(stderr=tr.r.err[-1500:]))
+            continue
+        if nm is None:
+            if tr.r.rc != 0 or tr.errors:
+                chk.violation('long identifier: %s, %s x %s|valid schema rejected' % (what, lab, TOOL), 'n=%d: %s' % (n, [d.raw[:200] for d in tr.errors][:3]),
+                              {'input.exp': text}, dict(stderr=tr.r.err[-1500:]))
+            continue
+        quoted = [d for d in tr.errors if nm.lower() in d.msg.lower()]
+        if not tr.errors:
+            chk.violation('long identifier: %s, %s x %s|diagnostic not produced' % (what, lab, TOOL), 'n=%d' % n, {'input.exp': text}, dict(stderr=tr.r.err[-1500:]))
+        elif not quoted:
+            chk.violation('long identifier: %s, %s x %s|quoted identifier is not the one in the input' % (what, lab, TOOL),
+                          'n=%d: %s' % (n, [d.raw[:120] + '...' + d.raw[-60:] for d in tr.errors][:3]), {'input.exp': text}, dict(stderr=tr.r.err[-1500:]))
+        elif not any(d.line == line for d in quoted):
+            chk.violation('long identifier: %s, %s x %s|line number wrong' % (what, lab, TOOL), 'n=%d: lines %s, expected %d' % (n, [d.line for d in quoted], line),
+                          {'input.exp': text}, dict(stderr=tr.r.err[-1500:]))
+    chk.count('long-identifier cases', len(lcases))
+
     return chk.finish(
         rule='single-fault mutants (vf/c04_faults.py) of %d generated valid files (%d multi-schema), one per argument-carrying fault class '
              '(%d classes) and file, run by check-express with the path given in 3 forms; switch matrix over the %d advertised warning names '
